@@ -16,6 +16,7 @@ mod fxref;
 mod histgraph;
 mod keys;
 mod par;
+mod phon;
 mod props;
 mod replay;
 mod report;
